@@ -26,7 +26,7 @@ def main():
         rc, out = sh("/venv/bin/python -m pytest -q -p no:cacheprovider 2>&1 | tail -1", cwd=wt); res["tests"] = out.strip()[-60:]
         rc, out = sh(f"/venv/bin/python {demo} {wt}", cwd=wt); res["demo_mutant_fail"] = rc != 0; res["demo_out"] = out.strip()[-300:]
         t0 = time.time()
-        rc, out = sh(f"/venv/bin/python /verif/run_check.py {pid} --tier {tier} --repo {wt}", cwd="/verif")
+        rc, out = sh(f"BARDIC_SKIP_BUILD=1 /venv/bin/python /verif/run_check.py {pid} --tier {tier} --repo {wt}", cwd="/verif")
         res["check_rc"] = rc; res["check_wall_s"] = round(time.time() - t0, 1)
         res["detected"] = ("VIOLATION property=" + pid) in out
         res["check_lines"] = [l for l in out.splitlines() if "iolation" in l or "VIOLATION" in l][:8]
